@@ -65,6 +65,8 @@ type Check struct {
 	// Run enumerates the check's whole space; it must call rc.Take() once per case in a
 	// deterministic order and only execute cases for which Take returned true.
 	Run func(rc *RunCtx)
+	// HangAfterS overrides the no-progress interval after which a worker counts as hung.
+	HangAfterS int
 	// RacePass: also run the auxiliary free-running -race pass (bin/vrace <ID>).
 	RacePass bool
 	// Single-process checks (explorers owning goroutine scheduling) set NoShard.
